@@ -29,7 +29,7 @@ CHECKS = {
    note="trusted: harness model; pages in use and pool size are read through verif-tagged accessors; the page-limit bound is audited only in runs whose streams keep no bytes",
    tech="deterministic discrete-event simulation with fault injection; invariant audit after every event"),
  "C13": dict(cat="exploration", engine="des-defrag", ref="4 C13",
-   text="seeded deterministic simulation of fragmenting senders (headers 20-60 bytes, payloads up to 65515, cuts at multiples of 8), a reordering/duplicating/dropping network with key reuse, a hostile injector and discard timers on a simulated clock in front of the real IPv4 defragmenter (and fragments in any order with duplicates in front of the IPv6 one); a per-key model of the received set decides at every call whether nothing, an error or exactly the original datagram must come back, and every returned byte must have been placed at its offset by a received fragment.",
+   text="seeded deterministic simulation of fragmenting senders (headers 20-60 bytes, payloads up to the maximum 65535 minus header, cuts at multiples of 8), a reordering/duplicating/dropping network with key reuse, a hostile injector (conflicting overlaps, holes, undersized, beyond 65535, complete sets that are oversize only with their header, >8192 fragments) and discard timers on a simulated clock in front of the real IPv4 defragmenter (and fragments in any order with duplicates in front of the IPv6 one); a per-key model of the received set decides at every call whether nothing, an error or exactly the original datagram must come back, and every returned byte must have been placed at its offset by a received fragment.",
    note="trusted: harness fragmenter and per-key model; fragments are built field by field with consistent Length; IPv6 behaviour after completion and IPv6 discard (reads the real clock) are not checked",
    tech="deterministic discrete-event simulation with network and hostile-input fault injection; reference-model oracle"),
  "C14": dict(cat="fault_enumeration", engine="sim-disk", ref="4 C14",
@@ -37,19 +37,19 @@ CHECKS = {
    note="trusted: harness packet generator and comparison; block boundaries are taken from the simulated file's length after each flushed packet; libpcap is a second reader for single-link-type files only",
    tech="deterministic simulation of file and stream with crash-point enumeration (cut at every byte) and short-read injection"),
  "C15": dict(cat="exploration", engine="sim-disk", ref="4 C15",
-   text="seeded structurally valid pcap / pcapng / snoop inputs (harness-built, both byte orders, every field a named mutation target) with boundary-value field corruptions, random tails, truncations and gzip wrapping are read through fault-free, chunked and failing simulated streams with the copying and zero-copy calls; oracles: no panic, no spin at EOF, allocation per call in proportion to bytes present plus declared snap length, data length == capture length <= length, results independent of chunking, prefix property and surfacing of an injected read error. The thorough tier sweeps every error offset for inputs up to 512 bytes.",
-   note="trusted: harness file builders and oracles; allocation measured with runtime/metrics and confirmed with runtime.ReadMemStats before it is reported; CPU-bound infinite loops that never touch the stream are only caught by the parent watchdog (exit 2)",
+   text="seeded structurally valid pcap / pcapng / snoop inputs (harness-built, both byte orders, every field a named mutation target) with boundary-value field corruptions, consistent inflation of all the length fields of one record or block (a huge claim that passes the consistency checks), random tails, truncations and gzip wrapping are read through fault-free, chunked and failing simulated streams with the copying and zero-copy calls; oracles: no panic, no spin at EOF, allocation per call in proportion to bytes present plus declared snap length, data length == capture length <= length, results independent of chunking, prefix property and surfacing of an injected read error. The thorough tier sweeps every error offset for inputs up to 512 bytes.",
+   note="trusted: harness file builders and oracles; allocation measured with runtime/metrics and confirmed with runtime.ReadMemStats before it is reported; children run under a 3 GiB address-space limit; a child that dies of out-of-memory or a run that does not finish is re-executed alone and, if it fails again, reported as allocation/out-of-memory resp. no-hang/run-does-not-finish with a by-seed replay",
    tech="deterministic simulation of the byte stream with short-read, data+EOF and read-error injection over seeded structure-aware corruptions"),
  "C16": dict(cat="exploration", engine="bubble", ref="4 C16",
-   text="the real PacketSource, including its background goroutine, channel, retry sleeps and context handling, runs inside a testing/synctest bubble (fake clock, durable-blocking detection); a tape-driven controller releases one actor at a time (data source result, consumer step, cancellation, clock advance) and checks once-in-order-intact delivery with capture metadata and truncation flag, retry within 5 ms of simulated time after transient errors, channel closed and source never read again after end of input, no new read and a closed channel after cancellation, refusal of zero-copy + NoCopy on the channel interface, and no goroutine left at the end of the bubble.",
+   text="the real PacketSource, including its background goroutine, channel, retry sleeps and context handling, runs inside a testing/synctest bubble (fake clock, durable-blocking detection); a tape-driven controller releases one actor at a time (data source result, consumer step, cancellation, clock advance) and checks once-in-order-intact delivery with capture metadata and truncation flag, retry within 5 ms of simulated time after transient errors, channel closed and source never read again after end of input, no new read and a closed channel after cancellation, refusal of zero-copy + NoCopy on the channel interface, and no goroutine left at the end of the bubble - also when the consumer walks away after the cancellation (reader parked on the full 1000-slot channel, in its retry sleep or in a read); data sources include concatenations of finite sources (ConcatFinitePacketDataSources: each sub-source read in order and never again after its io.EOF) and a second Packets/PacketsCtx call must return the same channel without a second reader.",
    note="trusted: harness actors and oracle; Go's select among ready cases is not owned (the packet in flight at cancellation is optional in the oracle); the data source is a stub, decoding uses gopacket.DecodePayload",
    tech="deterministic simulation in a synctest bubble with gated actors, scripted source faults (timeouts, transient and terminal errors), cancellation points and simulated clock"),
- "C20": dict(cat="exploration", engine="bubble", ref="4 C20",
-   text="the real ReaderStream runs between an assembler-side actor (seeded delivery script with empty slices, skips and completion; batch memory scribbled over after each call returns) and a consumer actor (seeded read sizes, Close at a seeded point, double Close) inside a synctest bubble; the controller decides who moves; oracles: bytes read are exactly the bytes delivered, one DataLost per gap when asked, EOF for ever after completion or Close, both sides run to completion (no deadlock, no panic).",
+ "C20": dict(cat="exploration", engine="bubble", ref="4 C20 and 9.1",
+   text="(unit reader-sweep additionally enumerates the crash points: for one seeded small script, read-size sequence over {1,2,64} and schedule, Close is placed at EVERY consumer step, each placement in a fresh bubble; unit reader-asm puts the real tcpassembly.Assembler on the assembler side.) the real ReaderStream runs between an assembler-side actor (seeded delivery script with empty slices, skips and completion; batch memory scribbled over after each call returns) and a consumer actor (seeded read sizes, Close at a seeded point, double Close) inside a synctest bubble; the controller decides who moves; oracles: bytes read are exactly the bytes delivered, one DataLost per gap when asked, EOF for ever after completion or Close, both sides run to completion (no deadlock, no panic).",
    note="trusted: harness actors and the element-by-element read model; single consumer goroutine",
    tech="deterministic simulation in a synctest bubble with gated actors; close-point and read-size fault injection; deadlock detection by durable blocking"),
  "C02": dict(cat="exploration", engine="coop", ref="4 C02",
-   text="2-4 real goroutines run under the cooperative scheduler, one at a time, over a seeded corpus: decoders compare every NewPacket result with a quiet-state reference decode of the same bytes and options (history and schedule independence), readers call the read-only accessors, String/Dump and VerifyChecksums on eager packets published by other goroutines and must get the publisher's answers, and the input buffers must be unchanged; the same simulation is run in a -race build whose scheduler hand-off is invisible to the race detector, so any write to shared packet memory is reported although the goroutines never ran simultaneously.",
+   text="2-4 real goroutines run under the cooperative scheduler, one at a time, over a seeded corpus (harness-built Ethernet/Dot1Q/IPv4/IPv6/TCP/UDP/ICMP/GRE/ARP/DNS query and answer stacks, the 147 packet byte arrays of gopacket's own layer tests with their first-layer types, near-duplicates, truncations, bit flips): decoders compare every NewPacket result with a quiet-state reference decode of the same bytes and options (history and schedule independence), readers call the read-only accessors, String/Dump and VerifyChecksums on eager packets published by other goroutines and must get the answers recorded from a twin decode of the same bytes (the shared packet itself is handed over untouched, optionally after SetNetworkLayerForChecksum so that TCP/UDP checksums are really verified), and the input buffers must be unchanged; the same simulation is run in a -race build whose scheduler hand-off is invisible to the race detector, so any write to shared packet memory is reported although the goroutines never ran simultaneously.",
    note="trusted: harness packet generator, signature renderer and hand-off (one atomic pointer per published packet); schedules are explored at API-call granularity, a torn intermediate value inside one call cannot be produced; the race detector keeps a bounded history per word",
    tech="deterministic cooperative scheduling of real goroutines with a race-detector-invisible hand-off; reference-decode oracle"),
  "C04": dict(cat="exploration", engine="coop", ref="4 C04",
